@@ -91,15 +91,14 @@ Section Proofs.
 Variable decode : list N -> option msg.
 Variable method_kind : list N -> N.
 Variable req_ok : list N -> bool.
-Variable service : list N -> list N -> sres.
-Variable call_name call_req : list N.
+Variable service : list N -> list N -> option sres.
 
 Notation dispatch := (dispatch method_kind req_ok service).
 Notation body_phase := (body_phase decode method_kind req_ok service).
 Notation descriptor_ready := (descriptor_ready decode method_kind req_ok service).
 Notation feed := (feed decode method_kind req_ok service).
-Notation step := (step decode method_kind req_ok service call_name call_req).
-Notation run := (run decode method_kind req_ok service call_name call_req).
+Notation step := (step decode method_kind req_ok service).
+Notation run := (run decode method_kind req_ok service).
 Notation frames := (frames decode).
 Notation frames_f := (frames_f decode).
 
@@ -115,6 +114,24 @@ Proof.
   destruct ok; inversion H; subst; repeat constructor.
 Qed.
 
+Lemma request_complete_events cl ok r q res r' evs :
+  request_complete cl ok r q res = (r', evs) -> Forall rpc_only evs.
+Proof.
+  unfold request_complete. intros H.
+  destruct (memN q (cancelled r)); [inversion H; constructor|].
+  destruct (key_of q (requests r)); [|inversion H; constructor].
+  destruct (send_msg _ _ _ _) as [[r1 e1] b1] eqn:E. inversion H; subst.
+  eapply send_msg_events; eauto.
+Qed.
+
+Lemma supersede_events cl ok r id r' evs :
+  supersede cl ok r id = (r', evs) -> Forall rpc_only evs.
+Proof.
+  unfold supersede. intros H. destruct (lookup id (requests r)); [|inversion H; constructor].
+  destruct (send_msg _ _ _ _) as [[r2 e2] b2] eqn:E. inversion H; subst.
+  eapply send_msg_events; eauto.
+Qed.
+
 Lemma dispatch_events cl ok r m r' evs :
   dispatch cl ok r m = (r', evs) -> Forall rpc_only evs.
 Proof.
@@ -125,8 +142,13 @@ Proof.
     + destruct (send_msg _ _ _ _) as [[r1 e1] b1] eqn:E. inversion H; subst.
       eapply send_msg_events; eauto.
     + destruct (negb (req_ok (m_buf m))); [inversion H; constructor|].
-      destruct (send_msg _ _ _ _) as [[r1 e1] b1] eqn:E. inversion H; subst.
-      constructor; [exact I|]. eapply send_msg_events; eauto.
+      destruct (supersede cl ok r (m_id m)) as [r1 evs1] eqn:E1.
+      apply supersede_events in E1.
+      destruct (service (m_name m) (m_buf m)) as [res|].
+      * destruct (request_complete _ _ _ _ _) as [r3 evs3] eqn:E3. inversion H; subst.
+        apply request_complete_events in E3.
+        apply Forall_app; split; [exact E1|]. constructor; [exact I|exact E3].
+      * inversion H; subst. apply Forall_app; split; [exact E1|repeat constructor].
   - destruct (resp_outcome m) as [o|].
     + unfold handle_response in H. destruct (lookup _ _); inversion H; subst; repeat constructor.
     + destruct (m_type m =? STREAM_REQUEST); [|inversion H; constructor].
@@ -261,12 +283,13 @@ Proof.
     inversion H; subst. split; [exact F2|apply evs_ok_app; assumption].
 Qed.
 
-Lemma call_method_events cl ok r r' evs :
-  call_method call_name call_req cl ok r = (r', evs) -> Forall rpc_only evs.
+Lemma call_method_events cl ok st nm rq r r' evs :
+  call_method cl ok st nm rq r = (r', evs) -> Forall rpc_only evs.
 Proof.
   unfold call_method. intros H.
   destruct (send_msg _ _ _ _) as [[r2 evs2] b] eqn:Es.
   apply send_msg_events in Es.
+  destruct st; [inversion H; subst; constructor; [exact I|exact Es]|].
   destruct (negb b).
   - inversion H; subst. constructor; [exact I|]. apply Forall_app; split; [exact Es|repeat constructor].
   - destruct (lookup _ _); inversion H; subst.
@@ -277,10 +300,12 @@ Qed.
 Lemma step_safe f r o f' r' evs :
   FI f -> step f r o = (f', r', evs) -> FI f' /\ evs_ok evs.
 Proof.
-  intros HFI H. destruct o as [bs ok|ok]; cbn [Model.step] in H.
+  intros HFI H. destruct o as [bs ok|st nm rq ok|q res ok]; cbn [Model.step] in H.
   - eapply feed_safe; eauto.
-  - destruct (call_method _ _ _ _ _) as [r1 evs1] eqn:Ec. inversion H; subst.
+  - destruct (call_method _ _ _ _ _ _) as [r1 evs1] eqn:Ec. inversion H; subst.
     split; [exact HFI|]. apply rpc_only_ok. eapply call_method_events; eauto.
+  - destruct (request_complete _ _ _ _ _) as [r1 evs1] eqn:Ec. inversion H; subst.
+    split; [exact HFI|]. apply rpc_only_ok. eapply request_complete_events; eauto.
 Qed.
 
 Lemma run_safe ops : forall f r f' r' evs,
